@@ -495,6 +495,8 @@ func (in *Interp) exec(s ast.Stmt, st *State) []result {
 			return in.execLoop(inner, st, x.Label.Name)
 		case *ast.SwitchStmt:
 			return in.execSwitch(inner, st, x.Label.Name)
+		case *ast.SelectStmt:
+			return in.execSelect(inner, st, x.Label.Name)
 		}
 		return in.exec(x.Stmt, st)
 	case *ast.ForStmt, *ast.RangeStmt:
@@ -515,7 +517,7 @@ func (in *Interp) exec(s ast.Stmt, st *State) []result {
 	case *ast.TypeSwitchStmt:
 		in.undecided(x.Pos(), "type switch")
 	case *ast.SelectStmt:
-		in.undecided(x.Pos(), "select")
+		return in.execSelect(x, st, "")
 	}
 	in.undecided(s.Pos(), "unsupported statement %T", s)
 	return nil
@@ -525,6 +527,44 @@ func identExprs(ids []*ast.Ident) []ast.Expr {
 	out := make([]ast.Expr, len(ids))
 	for i, id := range ids {
 		out[i] = id
+	}
+	return out
+}
+
+// execSelect: any arm may be the one taken — the state forks into one path per communication clause (and the
+// default clause); the taken arm is recorded as an event "select <comm>" before its communication and body run.
+func (in *Interp) execSelect(x *ast.SelectStmt, st *State, label string) []result {
+	var out []result
+	clauses := x.Body.List
+	for i, cc := range clauses {
+		clause := cc.(*ast.CommClause)
+		s := st
+		if i < len(clauses)-1 {
+			s = st.clone()
+			in.fork()
+		}
+		name := "default"
+		if clause.Comm != nil {
+			name = core.FullStr(clause.Comm)
+		}
+		s.Emit("select "+name, clause.Pos())
+		starts := []result{{st: s, c: cNext}}
+		if clause.Comm != nil {
+			starts = in.exec(clause.Comm, s)
+		}
+		for _, r0 := range starts {
+			if r0.c != cNext {
+				out = append(out, r0)
+				continue
+			}
+			for _, r := range in.execBlock(clause.Body, r0.st) {
+				if r.c == cBreak && (r.label == "" || r.label == label) {
+					r.c = cNext
+					r.label = ""
+				}
+				out = append(out, r)
+			}
+		}
 	}
 	return out
 }
